@@ -198,3 +198,50 @@ def eval_icmp(pred, a, b, bits):
         "ugt": a > b, "uge": a >= b, "ult": a < b, "ule": a <= b,
         "sgt": s(a) > s(b), "sge": s(a) >= s(b), "slt": s(a) < s(b), "sle": s(a) <= s(b),
     }[pred]
+
+
+def edge_cond(f, p, s):
+    """condition known on CFG edge p->s from p's terminator: (cond valref, truth) or None"""
+    be = branch_edges(f, p)
+    if not be:
+        return None
+    c, ts, fs = be
+    if ts == fs:
+        return None
+    if s == ts:
+        return (c, True)
+    if s == fs:
+        return (c, False)
+    return None
+
+
+def conditions_at(f, b):
+    """branch conditions (cond valref, truth) known to hold on entry to block b:
+    for each dominator edge d->s where s dominates b and every predecessor of s other
+    than d is dominated by s (so s is entered from outside only through d->s)."""
+    out = []
+    cur = b
+    seen = set()
+    while cur != -1 and cur not in seen:
+        seen.add(cur)
+        d = f.blocks[cur].idom
+        if d == -1:
+            break
+        # find the successor s of d that dominates b
+        for s in f.blocks[d].succs:
+            if f.dominates_block(s, b):
+                others = [p for p in f.blocks[s].preds if p != d and not f.dominates_block(s, p)]
+                if not others and f.blocks[d].succs.count(s) == 1:
+                    ec = edge_cond(f, d, s)
+                    if ec:
+                        out.append(ec)
+        cur = d
+    return out
+
+
+def conditions_on_edge(f, p, s):
+    out = list(conditions_at(f, p))
+    ec = edge_cond(f, p, s)
+    if ec:
+        out.append(ec)
+    return out
